@@ -7,6 +7,6 @@ NoWrap == [n \in Node |-> "none"]
 NoFail == [n \in Node |-> "none"]
 Empty == [n \in Node |-> {}]
 Fam == {[single |-> g, selfOpt |-> AllFalse, slice |-> Empty, sliceOpt |-> AllFalse, lazy |-> {},
-         wrap |-> NoWrap, fail |-> NoFail, procs |-> <<>>, mode |-> [n \in Node |-> "normal"], rorder |-> <<>>] : g \in [Node -> SUBSET Node]}
+         wrap |-> NoWrap, fail |-> NoFail, procs |-> <<>>, mode |-> [n \in Node |-> "normal"], rorder |-> <<>>, ilook |-> NoLook] : g \in [Node -> SUBSET Node]}
 FamNoSelf == {s \in Fam : \A n \in Node : n \notin s.single[n]}
 =============================================================================
